@@ -185,7 +185,10 @@ def gen_runs(rng, nbase):
                 lam = rng.choice([n + 3, 2 * n, 4 * n + 1, 5, 40, 120]); mu = rng.choice([0, 1, max(1, lam // 4), max(1, lam // 2), lam - 1])
             sig = rng.choice([0, 0, 0.125, 1, 5])
         elif alg == "CMSA":
-            if rng.random() < 0.6:
+            r = rng.random()
+            if r < 0.25:          # population large relative to the dimension (2*mu > n*(n+1)): learning constants at their corner
+                n = rng.choice([2, 2, 3, 4]); lam = rng.choice([24, 40, 80]); mu = rng.choice([lam // 4, lam // 2])
+            elif r < 0.7:
                 lam = rng.choice([2 * n, 4 * n, 8 * n + 1]); mu = rng.choice([0, 1, max(1, lam // 4), lam // 2])
             sig = rng.choice([0, 0.125, 1, 5])
         elif alg == "ECMA":
@@ -204,6 +207,9 @@ def gen_runs(rng, nbase):
             steps = rng.randint(20, 200)
         mk = lambda scale: "RUN %s %d %d %d %d %s %d %d %s %d" % (alg, n, lam, mu, rec, repr(sig), seed, fid, scale, steps)
         cmds.append((mk("1"), "base")); cmds.append((mk("1"), "same")); cmds.append((mk("4"), "scaled"))
+        # the same optimizer OBJECT first completes another run (other objective, other seed) and is initialised again:
+        # "runs with the same seed are identical" must not depend on the object's history
+        cmds.append((mk("1") + " %d %d" % (rng.choice([f for f in (0, 1, 2, 4, 6) if f != fid]), rng.randint(3, 12)), "reinit"))
     # the announced-constraint objective: documented refusal
     for alg in algs:
         cmds.append(("RUN %s 3 0 0 2 0 1 7 1 3" % alg, "base"))
@@ -340,7 +346,9 @@ def main():
         # a pair (base, same-seed/4f run) written by a determinism / rank-invariance failure
         for i in range(1, len(runs)):
             a, b = runs[i - 1][0].split(), runs[i][0].split()
-            if a[:9] == b[:9] and a[10:] == b[10:]:
+            if len(b) == len(a) + 2 and b[:len(a)] == a:
+                runs[i] = (runs[i][0], "reinit")
+            elif a[:9] == b[:9] and a[10:] == b[10:]:
                 runs[i] = (runs[i][0], "same" if a[9] == b[9] else "scaled")
     else:
         runs = gen_runs(rng, 70 if not big else 1500)
@@ -378,6 +386,9 @@ def main():
         if role == "base": base = (cmd, blk)
         elif role == "same" and not bad and blk != base[1]:
             bad.append(("monitor:%s:seed-determinism" % cmd.split()[1], "`%s`: two runs with the same seed differ" % cmd))
+        elif role == "reinit" and not bad and blk != base[1]:
+            k = next((i for i, (x, y) in enumerate(zip(blk, base[1])) if x != y), min(len(blk), len(base[1])))
+            bad.append(("monitor:%s:reinit-determinism" % cmd.split()[1], "`%s`: an optimizer object that completed an earlier run and was initialised again does not repeat the run of a fresh object with the same seed (first difference at output line %d)" % (cmd, k)))
         elif role == "scaled" and not bad and strip_vals(blk, 4.0) != strip_vals(base[1], 1.0):
             a, b = strip_vals(blk, 4.0), strip_vals(base[1], 1.0)
             k = next((i for i, (x, y) in enumerate(zip(a, b)) if x != y), min(len(a), len(b)))
@@ -530,7 +541,7 @@ def main():
 
     ck.cov["evaluations"] = evals
     ck.cov["distinct_nontrivial"] = len(nontrivial) + len(set(cors)) + len(set(ecors)) + len(set(pens))
-    ck.cov["rule"] = ("optimizer steps (RUN: 7 optimizer configurations x dimension 2..10 x population sizes / recombination types / initial sigmas / seeds / 7 objectives, each run three times: "
+    ck.cov["rule"] = ("optimizer steps (RUN: 7 optimizer configurations x dimension 2..10 x population sizes / recombination types / initial sigmas / seeds / 7 objectives, each run four times (fresh, fresh again with the same seed, on 4*f, and on an object re-initialised after an earlier run): "
                       "twice with the same seed and once on 4*f), CMA updates replayed through the model (COR), ElitistCMA steps (ECOR), PenalizingEvaluator calls (P); non-trivial = more than 2 steps; distinct = distinct command lines")
     ck.cov["samples"] = [runs[0][0] if runs else "", cors[0] if cors else "", ecors[0] if ecors else "", pens[0] if pens else ""]
     ck.notes["failures_matching_known_findings"] = nknown[0]
